@@ -386,6 +386,19 @@ def run(ctx, out):
             # the API outcome of exactly this command line: files are re-parsed, so validate() is called again on the files
             api = classify(lambda: pyshacl.validate(dp, shacl_graph=sp, **{k: v for k, v in kw.items() if not k.startswith("_")}))
             jobs.append((label, args, api, fmt))
+            if api == "ValidationFailure":
+                # a validation failure stands in for the report graph: every output format has to cope with it, and so has the
+                # API's serialize_report_graph option
+                for f2 in ("human", "turtle", "json-ld", "table"):
+                    if f2 != fmt:
+                        a2 = [dp, "-s", sp, "-f", f2] + args[5:]
+                        jobs.append((label + ":-f " + f2, a2, api, f2))
+                for srg in (True, "turtle", "json-ld"):
+                    o2 = classify(lambda: pyshacl.validate(dp, shacl_graph=sp, serialize_report_graph=srg, **{k: v for k, v in kw.items() if not k.startswith("_")}))
+                    out.evaluations += 1
+                    if o2 != "ValidationFailure":
+                        out.b_fail.append({"signature": "C16:%s:%s:serialize_report_graph" % (o2, label.split(":", 1)[1]),
+                                           "case": {"label": label, "shapes_ttl": sg.serialize(format="turtle"), "options": dict(kw, serialize_report_graph=srg)}, "outcome": o2})
         # special inputs
         good_s, good_d = os.path.join(tmp, "good_s.ttl"), os.path.join(tmp, "good_d.ttl")
         open(good_s, "w").write(PFX + "ex:S a sh:NodeShape ; sh:targetNode ex:n0 ; sh:class ex:C0 .")
